@@ -64,7 +64,12 @@ def with_budget(seconds, fn, *args, **kw):
         except Exception as e:  # noqa
             return ('raise', e)
     finally:
-        signal.setitimer(signal.ITIMER_VIRTUAL, 0)
+        # the alarm can still arrive between the end of the call and the disarming below (seen with the 0.05 s budgets of the
+        # hang governor): the call is over, its result stands, the late alarm is dropped instead of escaping from the harness
+        try:
+            signal.setitimer(signal.ITIMER_VIRTUAL, 0)
+        except Budget:
+            signal.setitimer(signal.ITIMER_VIRTUAL, 0)
         signal.signal(signal.SIGVTALRM, old)
 
 
